@@ -711,11 +711,43 @@ pub fn variants(ops_path: &str, scratch: &str) -> (u64, Vec<String>) {
         let img = real.image();
         (results, tables, img)
     };
+    // the same history with the storages' times pinned only at the end (a storage removed before then never has its
+    // clock time pinned): what is left in the file must not depend on when the run was made
+    let run_pin_late = |h: &Vec<String>| -> Vec<u8> {
+        let mut real = Real::new();
+        real.pin_late = true;
+        for line in h {
+            if real.exec(line) == "panic" {
+                break;
+            }
+        }
+        real.handles.clear();
+        if let Some(c) = real.comp.as_mut() {
+            let paths: Vec<String> = c.walk().filter(|e| e.is_storage()).map(|e| e.path().to_string_lossy().into_owned()).collect();
+            let pin = cfb::verif::system_time_from_timestamp(crate::api::PIN_TS);
+            for q in paths {
+                let _ = c.set_created_time(&q, pin);
+                let _ = c.set_modified_time(&q, pin);
+            }
+            let _ = c.flush();
+        }
+        real.image()
+    };
     let mut violations = Vec::new();
     let mut evaluations = 0u64;
     std::fs::create_dir_all(scratch).unwrap();
     for (i, h) in histories.iter().enumerate() {
         let (r0, t0, img0) = run(h, BackendKind::Mem, None, None);
+        if h.iter().any(|l| l.starts_with("mkdir")) {
+            let a = run_pin_late(h);
+            std::thread::sleep(std::time::Duration::from_micros(50));
+            let b = run_pin_late(h);
+            evaluations += 1;
+            if a != b {
+                let k = a.iter().zip(b.iter()).position(|(x, y)| x != y).unwrap_or(a.len().min(b.len()));
+                violations.push(format!("history {} on backend `second run, times pinned at the end`: two runs of the same history leave different files (first difference at byte {}, lengths {} / {}): something in the file depends on the clock although every storage that exists has pinned times", i, k, a.len(), b.len()));
+            }
+        }
         let file_path = format!("{}/c18_{}.cfb", scratch, i);
         let same_bytes: Vec<(&str, BackendKind)> = vec![
             ("second run", BackendKind::Mem),
